@@ -5,5 +5,7 @@ tier=${1:-quick}; jobs=${2:-4}
 cd /verif
 ls seeded | grep -v '^R-' | while read sid; do
   props=$(/venv/bin/python -c "import json;m=json.load(open('seeded/$sid/meta.json'));print(' '.join(m.get('caught_by',[m['property']])))")
-  echo "$props /verif/seeded/$sid"
-done | xargs -P $jobs -L 1 bash -c 'p=$0; s=${@: -1}; tools/mutant_eval.sh $p $s '"$tier"' 2>&1 | grep RESULT'
+  # (a seed whose meta.json says "tier": "thorough" needs sizes that only the thorough tier drives)
+  t=$(/venv/bin/python -c "import json;m=json.load(open('seeded/$sid/meta.json'));print(m.get('tier','$tier'))")
+  echo "$props $t /verif/seeded/$sid"
+done | xargs -P $jobs -L 1 bash -c 'p=$0; t=$1; s=${@: -1}; tools/mutant_eval.sh $p $s $t 2>&1 | grep RESULT'
